@@ -385,6 +385,12 @@ func cmdCheck(args []string) int {
 			return 3
 		}
 		defer rp.cleanup()
+		var ids []string
+		for id := range known {
+			ids = append(ids, id)
+		}
+		sort.Strings(ids)
+		rp.known = strings.Join(ids, ",")
 	}
 	tierN := 0
 	if thorough {
@@ -460,7 +466,7 @@ func cmdCheck(args []string) int {
 				inconclusive = append(inconclusive, o.name+": "+err.Error())
 				continue
 			}
-			if outcomeMatches(res.Outcome, v) {
+			if outcomeMatches(res.Outcome, v) || containsStr(res.KnownFails, v.AssertID) {
 				for _, one := range strings.Split(kid, ",") {
 					if knownSeen[one] {
 						continue
@@ -488,7 +494,7 @@ func cmdCheck(args []string) int {
 				inconclusive = append(inconclusive, o.name+": "+err.Error())
 				break
 			}
-			if res.Outcome == "done" && equalStrings(res.Observed, w.Observed) {
+			if res.Outcome == "done" && len(res.KnownFails) == 0 && equalStrings(res.Observed, w.Observed) {
 				validated++
 			} else {
 				replayMismatch++
@@ -550,6 +556,15 @@ func outcomeMatches(outcome string, v *symgo.Violation) bool {
 		return strings.HasPrefix(outcome, "panic:")
 	}
 	return outcome == "assert:"+v.AssertID
+}
+
+func containsStr(xs []string, s string) bool {
+	for _, x := range xs {
+		if x == s {
+			return true
+		}
+	}
+	return false
 }
 
 func equalStrings(a, b []string) bool {
